@@ -38,7 +38,7 @@ CONSTS = """  Impl = "%(impl)s"
   Kinds = %(kinds)s
   TimeoutCfgs = %(tcfgs)s
 """
-ALLKINDS = '{"closed", "lost", "won", "other", "xclosed"}'
+ALLKINDS = '{"closed", "lost", "won", "other", "xclosed", "created"}'
 
 
 def cfg_text(spec, invariants, props=(), **kw):
@@ -67,43 +67,58 @@ def parse_printed(out, tag):
 # ---------------------------------------------------------------------------------------------------------
 # J3
 
-def judge(trace_path, what):
-    """SpecV on a recorded trace file: returns the list of verdict records (one per terminated execution)."""
-    r = vlib.tlc(SPEC, "BidEngineTrace", "BidEngineTraceV.cfg", workers=1, timeout=900,
-                 copy_files={"trace.ndjson": trace_path})
-    if not r.ok:
-        raise vlib.Inconclusive("%s: verdict run of TLC failed (%s %s)\n%s" % (what, r.kind, r.violated, (r.error or r.out[-2000:])))
-    return parse_printed(r.out, "VERDICT")
+CHUNK = 4000   # executions per TLC run (a run costs ~1 s of JVM start; ndJsonDeserialize is linear)
+
+
+def write_lines(path, by, sids):
+    index = []
+    with open(path, "w") as fh:
+        for sid in sids:
+            for k, l in enumerate(by[sid]):
+                fh.write(json.dumps(l) + "\n")
+                index.append((sid, k))
+    return index
+
+
+def judge(by, order, what):
+    """SpecV on recorded executions: returns the list of verdict records (one per terminated execution)."""
+    out = []
+    for i in range(0, len(order), CHUNK):
+        d = vlib.scratch("bid-v-")
+        p = os.path.join(d, "trace.ndjson")
+        write_lines(p, by, order[i:i + CHUNK])
+        r = vlib.tlc(SPEC, "BidEngineTrace", "BidEngineTraceV.cfg", workers=1, timeout=900, copy_files={"trace.ndjson": p})
+        if not r.ok:
+            raise vlib.Inconclusive("%s: verdict run of TLC failed (%s %s)\n%s" % (what, r.kind, r.violated, (r.error or r.out[-2000:])))
+        out += parse_printed(r.out, "VERDICT")
+    return out
 
 
 def conform(lines_by_sid, order, what, max_rounds=6):
-    """SpecC on the recorded executions. Returns (accepted executions, [(sid, line-in-execution, line)] drifting)."""
+    """SpecC on the recorded executions. Returns (accepted executions, [(sid, line-in-execution, line)] drifting,
+    executions left unchecked after max_rounds drifting ones)."""
     drift = []
-    todo = list(order)
     accepted = 0
-    for _ in range(max_rounds):
-        if not todo:
-            break
+    todo = list(order)
+    rounds = 0
+    while todo and rounds < max_rounds + len(order) // CHUNK + 1 and len(drift) < max_rounds:
+        rounds += 1
+        batch = todo[:CHUNK]
         d = vlib.scratch("bid-c-")
         p = os.path.join(d, "trace.ndjson")
-        index = []
-        with open(p, "w") as fh:
-            for sid in todo:
-                for k, l in enumerate(lines_by_sid[sid]):
-                    fh.write(json.dumps(l) + "\n")
-                    index.append((sid, k))
+        index = write_lines(p, lines_by_sid, batch)
         r = vlib.tlc(SPEC, "BidEngineTrace", "BidEngineTrace.cfg", workers=1, timeout=900, copy_files={"trace.ndjson": p})
         if r.ok:
-            accepted += len(todo)
-            todo = []
-            break
+            accepted += len(batch)
+            todo = todo[len(batch):]
+            continue
         stuck = None
         if r.kind == "postcondition":
             for l in r.out.splitlines():
                 if l.startswith('<<"STUCK", '):
                     stuck = int(l[len('<<"STUCK", '):-2])
         elif r.kind == "invariant":
-            stuck = r.depth   # model-side C13 invariant false along the recorded path
+            stuck = r.depth - 1   # model-side C13 invariant false in the state reached by this line
         if stuck is None or stuck < 1 or stuck > len(index):
             raise vlib.Inconclusive("%s: conformance run of TLC failed (%s %s)\n%s" % (what, r.kind, r.violated, (r.error or r.out[-2000:])))
         sid, k = index[stuck - 1]
@@ -191,12 +206,18 @@ def run_vh(vh, args, what, timeout=900):
 
 def evaluate(vh, mode, args, trace_path, what, scripts=None):
     """Run the harness, judge (V) and conformance-check (C) what it recorded. Returns a dict."""
+    t = time.time()
     summ = run_vh(vh, [mode] + args + ["-out", trace_path], what)
     by, order = read_trace(trace_path)
-    verdicts = judge(trace_path, what) if order else []
+    t1 = time.time()
+    with cf.ThreadPoolExecutor(max_workers=2) as ex:
+        fv = ex.submit(judge, by, order, what)
+        fc = ex.submit(conform, by, order, what)
+        verdicts = fv.result()
+        accepted, drift, unchecked = fc.result()
     if len(verdicts) != len(order):
         raise vlib.Inconclusive("%s: %d executions recorded but %d verdicts" % (what, len(order), len(verdicts)))
-    accepted, drift, unchecked = conform(by, order, what)
+    vlib.log("[C13] %s: harness %.1fs, verdict+conformance %.1fs" % (what, t1 - t, time.time() - t1))
     res = dict(summ=summ, by=by, order=order, verdicts=verdicts, accepted=accepted, drift=drift, unchecked=unchecked,
                stuck=[o for o in summ["outcomes"] if o["status"] in ("stuck", "error")],
                hdrift=[o for o in summ["outcomes"] if o["status"] == "drift"], scripts=scripts, what=what)
@@ -252,12 +273,8 @@ def selftest(res):
             l["price"] = MAXPRICE + 1
         b.append(l)
     c0 = [dict(l, sid=3) for l in pick]
-    d = vlib.scratch("bid-st-")
-    p = os.path.join(d, "t.ndjson")
-    with open(p, "w") as fh:
-        for l in a + b + c0:
-            fh.write(json.dumps(l) + "\n")
-    vs = {v["sid"]: v for v in judge(p, "self-test")}
+    stby = {1: a, 2: b, 3: c0}
+    vs = {v["sid"]: v for v in judge(stby, [1, 2, 3], "self-test")}
     ok_a = (not vs[1]["ok"]) and (not vs[1]["released"])
     ok_b = (not vs[2]["ok"]) and (not vs[2]["bounded"])
     ok_0 = vs[3]["ok"]
@@ -338,7 +355,7 @@ def run(pid, tier, seed, replay):
     free_kw = dict(maxfail=2, maxign=2, maxq=2, prices="{1, 45, 46, 47}") if thorough else {}
     quiet_kw = dict(quiet="TRUE", record="TRUE", maxq=1, kinds=ALLKINDS, tcfgs="{TRUE}")
     if thorough:
-        quiet_kw.update(maxfail=2, maxign=1, prices="{1, 46, 47}")
+        quiet_kw.update(maxfail=2, maxign=2, prices="{1, 45, 46, 47}")
     sim_kw = dict(quiet="TRUE", record="TRUE", maxq=1, kinds=ALLKINDS, tcfgs="{TRUE, FALSE}", maxfail=4, maxign=3,
                   prices="{1, 23, 45, 46, 47, 100}")
     jobs = {
@@ -355,6 +372,7 @@ def run(pid, tier, seed, replay):
     with cf.ThreadPoolExecutor(max_workers=4) as ex:
         futs = {k: ex.submit(f) for k, f in jobs.items()}
         rs = {k: f.result() for k, f in futs.items()}
+    vlib.log("[C13] TLC: " + ", ".join("%s %.0fs" % (k, r.wall_s) for k, r in rs.items()) + "; total %.0fs since start" % (time.time() - t0))
     vlib.tlc_require_ok(rs["free"], "J1 BidEngine (every interleaving, intended exit path)")
     vlib.tlc_require_ok(rs["quiet"], "J1/J2 BidEngine (forced schedules)")
     vlib.tlc_require_ok(rs["sim"], "J2 BidEngine (simulation of the larger forced-schedule model)")
